@@ -143,3 +143,65 @@ Theorem C01_los_round_trip_any_number_of_populations : forall (pops : list pop) 
   /\ call LosStep.G0 80 (CFun src_LOSParam_kwargs2args) (Some (selfL pops)) [VList kw] [] w = Ok (VList (map snum (flat_map free_r pops)), w).
 Proof. exact los_round_trip_any_number. Qed.
 Print Assumptions C01_los_round_trip_any_number_of_populations.
+
+(* THE BLOCK CONSTRUCTORS (Ctor.v).  The configuration over which all theorems above quantify is the record of attributes the ladders read from
+   `self`.  Running each block's serialised __init__ with every parameter given its own name as value shows: parameter p is stored under the
+   attribute _p (and nothing else is stored), every attribute read by param_list / args2kwargs / kwargs2args is among the stored ones, kwargs_fixed=None
+   becomes an EMPTY dictionary (LOS: one fresh empty dictionary per population), and an unsupported cosmology / supernova distribution / line-of-sight
+   distribution is refused with ValueError.  Together with C01_constructor_wiring (manager -> block keywords) this ties the user's keywords to the
+   configuration of the ladders. *)
+Require Import C01.Ctor.
+Theorem C01_lens_block_constructor : forall rg cu,
+  exists o, yields Gc 60 (CClass "LensParam" src_LensParam_init) None [] (tagged src_LensParam_init []) rg cu o cu []
+    /\ stores o (tagged src_LensParam_init []) = true /\ only_fields o (tagged src_LensParam_init []) [] = true
+    /\ reads_stored o [src_LensParam_param_list; src_LensParam_args2kwargs; src_LensParam_kwargs2args] = true
+    /\ List.length (tagged src_LensParam_init []) = 17%nat.
+Proof. exact lens_ctor. Qed.
+Print Assumptions C01_lens_block_constructor.
+Theorem C01_kin_block_constructor : forall rg cu (m : string), In m ["NONE"; "GOM"; "OM"; "const"] ->
+  exists o, yields Gc 60 (CClass "KinParam" src_KinParam_init) None [] (tagged src_KinParam_init [("anisotropy_model", VStr m)]) rg cu o cu []
+    /\ stores o (tagged src_KinParam_init [("anisotropy_model", VStr m)]) = true
+    /\ only_fields o (tagged src_KinParam_init []) [] = true
+    /\ reads_stored o [src_KinParam_param_list; src_KinParam_args2kwargs; src_KinParam_kwargs2args] = true.
+Proof. exact kin_ctor. Qed.
+Print Assumptions C01_kin_block_constructor.
+Theorem C01_cosmo_block_constructor : forall rg cu (c : string), In c ["FLCDM"; "FwCDM"; "w0waCDM"; "oLCDM"; "NONE"] ->
+  exists o, yields Gc 60 (CClass "CosmoParam" src_CosmoParam_init) None [] (tagged src_CosmoParam_init [("cosmology", VStr c)]) rg cu o cu []
+    /\ stores o (tagged src_CosmoParam_init [("cosmology", VStr c)]) = true
+    /\ only_fields o (tagged src_CosmoParam_init []) ["_supported_cosmologies"] = true
+    /\ reads_stored o [src_CosmoParam_param_list; src_CosmoParam_args2kwargs; src_CosmoParam_kwargs2args] = true.
+Proof. exact cosmo_ctor. Qed.
+Print Assumptions C01_cosmo_block_constructor.
+Theorem C01_source_block_constructor : forall rg cu (d : string), In d ["GAUSSIAN"; "NONE"] ->
+  exists o, yields Gc 60 (CClass "SourceParam" src_SourceParam_init) None [] (tagged src_SourceParam_init [("sne_distribution", VStr d)]) rg cu o cu []
+    /\ stores o (tagged src_SourceParam_init [("sne_distribution", VStr d)]) = true
+    /\ only_fields o (tagged src_SourceParam_init []) [] = true
+    /\ reads_stored o [src_SourceParam_param_list; src_SourceParam_args2kwargs; src_SourceParam_kwargs2args] = true.
+Proof. exact source_ctor. Qed.
+Print Assumptions C01_source_block_constructor.
+Theorem C01_los_block_constructor : forall rg cu,
+  exists o, yields Gc 60 (CClass "LOSParam" src_LOSParam_init) None [] (tagged src_LOSParam_init [("los_distributions", VList los_names)]) rg cu o cu []
+    /\ stores o (tagged src_LOSParam_init [("los_distributions", VList los_names)]) = true
+    /\ only_fields o (tagged src_LOSParam_init []) [] = true
+    /\ reads_stored o [src_LOSParam_param_list; src_LOSParam_args2kwargs; src_LOSParam_kwargs2args] = true.
+Proof. exact los_ctor. Qed.
+Print Assumptions C01_los_block_constructor.
+Theorem C01_fixed_defaults_to_empty : forall rg cu,
+  (exists o, yields Gc 60 (CClass "LensParam" src_LensParam_init) None [] (tagged src_LensParam_init [("kwargs_fixed", VNone)]) rg cu o cu []
+     /\ field_of o "_kwargs_fixed" = Some (VDict []))
+  /\ (exists o, yields Gc 60 (CClass "KinParam" src_KinParam_init) None [] (tagged src_KinParam_init [("anisotropy_model", VStr "OM"); ("kwargs_fixed", VNone)]) rg cu o cu []
+     /\ field_of o "_kwargs_fixed" = Some (VDict []))
+  /\ (exists o, yields Gc 60 (CClass "CosmoParam" src_CosmoParam_init) None [] (tagged src_CosmoParam_init [("cosmology", VStr "FLCDM"); ("kwargs_fixed", VNone)]) rg cu o cu []
+     /\ field_of o "_kwargs_fixed" = Some (VDict []))
+  /\ (exists o, yields Gc 60 (CClass "LOSParam" src_LOSParam_init) None [] (tagged src_LOSParam_init [("los_distributions", VList los_names); ("kwargs_fixed", VNone)]) rg cu o cu []
+     /\ field_of o "_kwargs_fixed" = Some (VList [VDict []; VDict []; VDict []; VDict []])
+     /\ exists o', yields Gc 60 (CClass "LOSParam" src_LOSParam_init) None [] (tagged src_LOSParam_init [("los_distributions", VNone); ("kwargs_fixed", VNone)]) rg cu o' cu []
+        /\ field_of o' "_los_distributions" = Some (VList []) /\ field_of o' "_kwargs_fixed" = Some (VList [])).
+Proof. intros rg cu. exact (conj (lens_ctor_default_fixed rg cu) (conj (kin_ctor_default_fixed rg cu) (conj (cosmo_ctor_default_fixed rg cu) (los_ctor_defaults rg cu)))). Qed.
+Print Assumptions C01_fixed_defaults_to_empty.
+Theorem C01_unsupported_names_refused : forall rg cu,
+  (exists ds, call Gc 60 (CClass "CosmoParam" src_CosmoParam_init) None [] (tagged src_CosmoParam_init []) (World rg cu [] ds []) = Exc "ValueError")
+  /\ (exists ds, call Gc 60 (CClass "SourceParam" src_SourceParam_init) None [] (tagged src_SourceParam_init []) (World rg cu [] ds []) = Exc "ValueError")
+  /\ (exists ds, call Gc 60 (CClass "LOSParam" src_LOSParam_init) None [] (tagged src_LOSParam_init [("los_distributions", VList [VStr "GAUSS"])]) (World rg cu [] ds []) = Exc "ValueError").
+Proof. intros rg cu. exact (conj (cosmo_ctor_unsupported rg cu) (conj (source_ctor_unsupported rg cu) (los_ctor_unsupported rg cu))). Qed.
+Print Assumptions C01_unsupported_names_refused.
